@@ -42,10 +42,7 @@ def _run(case, kind: str, value):
     src = gg.to_source(case["main"])
     data = gd.decode(case["data"])
 
-    def go():
-        return env.from_string(src).render(**data)
-
-    return oc.outcome_of(go)
+    return oc.render(case, lambda: env.from_string(src), **data)
 
 
 def _is_resource(o) -> bool:
